@@ -103,15 +103,21 @@ CHECKS = {
 
 # sentences appended to a check's text (strengthenings made after the table above was written)
 ADDED = {
- "C02": " Also every list of exactly 3 operations (12^3) as the success branch of a transaction without predicates and as the failure branch of one with a false predicate.",
+ "C19": " Cluster BFS event: the node's own Raft host stops listing the shard while a lifecycle event calls Notify.",
+ "C16": " Every KV method on a table that was used and then deleted a moment ago: NotFound at once, nothing changed, empty when re-created.",
+ "C10": " Revision clause swept over 147 transaction shapes (predicates {none, holds, fails} x 7 success x 7 failure branches) sequentially through the real ActiveTable.",
+ "C08": " Savers holding 8 or 9 pairs of 2 MiB incompressible values with 0..3 small pairs behind them (the SST stream rolls over at 16 MiB), all four format pairs.",
+ "C05": " Worker restart during a poll: real worker routines, the first replication stream held after k = 1..6 messages, Close, a new worker catches up, the stream is let go: content = leader content at the recorded index.",
+ "C04": " Failed first open: the first Open hits an I/O error at (every operation outside pebble's DB directory) or dies at (every operation) its j-th file-system operation and the table is opened again, then two puts, a completed Sync and a power loss.",
+ "C02": " Also every list of exactly 3 operations (12^3) as the success branch of a transaction without predicates and as the failure branch of one with a false predicate. Range predicates over six 1 MiB pairs (more than one response message) with the odd value at every position, through the log and the read-only path.",
  "C03": " Also one log of six entries staging 4 MiB each under all 2^5 batchings (each also followed by close+reopen): every multiple of 4 MiB up to 24 MiB is crossed exactly at the last entry of some apply call.",
- "C07": " Also the real SnapshotServer.Stream with three leader writes landing before its k-th executed statement for every k (statement points in Stream, FSM.Lookup and commandSnapshot): streamed pairs = table content at the declared index.",
+ "C07": " Also the real SnapshotServer.Stream with three leader writes landing before its k-th executed statement for every k (statement points in Stream, FSM.Lookup and commandSnapshot): streamed pairs = table content at the declared index. Two overlapping Manager.Restore calls on one table (load B starts at load A's k-th read, completes there or is held until A returned): after every load that reports success the table holds that load's content.",
  "C11": " Part C's alphabet also holds a snapshot recovery of the follower table (real worker.recover -> Engine.Restore, at most once per path); known finding D14 (known_findings.json, findings/D14-*.json). Part D: event sequences (updates, sync, snapshot installs) on a real FSM whose listener looks at the FSM from inside the callback: what it is told is already served.",
- "C13": " Also every sequence of length 0..2 on ten pairwise different keys that a normalisation would merge.",
+ "C13": " Also every sequence of length 0..2 on ten pairwise different keys that a normalisation would merge. Listings are also compared with a directory tree of the keys written down independently (a sibling directory whose name extends another's is in the alphabet).",
  "C14": " Two-manager race scenarios with lag are explored once more with the lagging replica moving forward by snapshot install into its non-empty store.",
  "C15": " Worker part (fake clock): every lease write that succeeds while the committed record names another node and has not expired is a violation; expiry boundary: node 2 asks at 18 exact instants between 2h after and 3.999s before node 1's lease runs out.",
- "C17": " A 15th client certificate is issued by a CA that only the host's default trust store knows (SSL_CERT_FILE / SSL_CERT_DIR replaced for the check's process and the binaries it starts).",
- "C18": " Every shipped stream is also received with an empty chunk before and after every chunk.",
+ "C17": " A 15th client certificate is issued by a CA that only the host's default trust store knows (SSL_CERT_FILE / SSL_CERT_DIR replaced for the check's process and the binaries it starts). One leader with both TLS endpoints on unix sockets (unixs://) and a client that does not speak TLS at all.",
+ "C18": " Every shipped stream is also received with an empty chunk before and after every chunk. Compressors also round-trip payloads of 4 MiB - 1 .. 16 MiB + 1.",
 }
 
 NOT_APPLICABLE = {}
